@@ -47,7 +47,12 @@ def main():
                 sub = "./cmd/opgen/"
             dest = f"{wt}/{sub}/zz_seed_{d}" if d.endswith("_test.go") else f"{wt}/{sub}/{d}"
             shutil.copy(f"{src}/{d}", dest)
-        demo_cmd = f"go test {race} -vet=off -count=1 {sub}"
+        # a demonstration that must run alone (cold start) names its tests with -run in the notes
+        runpat = ""
+        m2 = re.search(r"go test[^\n]*-run[ =]'?\"?([A-Za-z0-9_|^$.*]+)", notes)
+        if m2 and os.environ.get("DEMO_RUN_ONLY"):
+            runpat = f"-run '{m2.group(1)}'"
+        demo_cmd = f"go test {race} -vet=off -count=1 {runpat} {sub}"
         rc_with, out_with = sh(demo_cmd, cwd=wt)
         fails = re.findall(r"--- FAIL: (\S+)", out_with)
         meta["demo_fails_with_change"] = rc_with != 0
@@ -72,7 +77,7 @@ def main():
     try:
         for cid in checks:
             t0 = time.time()
-            rc, out = sh(f"./run {cid} {tier}", cwd="/verif")
+            rc, out = sh(f"./run {cid} {tier}", cwd="/verif", timeout=2400)
             viol = [l for l in out.splitlines() if l.startswith("VIOLATION")]
             first = ""
             m = re.search(r"VIOLATION[^\n]*\n\s+([^\n]*)", out)
